@@ -715,7 +715,11 @@ func ruleHexGuard(c *Ctx, rule string) {
 					tests++
 				}
 				// a predicate helper that itself tests both characters (`peekHexPair()`): it answers true only after two IsHex calls
-				if cl, ok := v.(*ssa.Call); ok && pol {
+				hv := v
+				if ex, ok := hv.(*ssa.Extract); ok {
+					hv = ex.Tuple // `high, low, ok := s.peekHexDigits()`: the flag of a helper that hands the digits back as well
+				}
+				if cl, ok := hv.(*ssa.Call); ok && pol {
 					if g := cl.Call.StaticCallee(); g != nil && g != isHex && c.isRepoFn(g) && len(g.Blocks) > 0 {
 						if n := len(callsTo(g, isHex)); n >= 2 {
 							tests += n
